@@ -55,14 +55,31 @@ SLOPE_BOUND = 0.5                # gc-tracked objects per run
 LINEAR_TOL = 0.15
 
 FEATURES = ["rename", "delete", "template", "io_source", "payload_source", "io_sink", "sweep", "slicer", "probe",
-            "ctx_processor"]
+            "ctx_processor", "default_on_generated_class"]
+
+# a fixed extra pipeline (every tier): processors referenced as ``module:Class`` of a module that was never registered,
+# every parameter resolved from its signature default on a per-run generated (IO adapter / slicer) class
+QUALIFIED_CASE = {"nodes": [{"processor": "vlib.components_extra:XSrcDefault"},
+                            {"processor": "vlib.components_extra:XMulDefault"},
+                            {"processor": "VNullSink"},
+                            {"processor": "VValueProbe", "context_key": "seen"}],
+                  "ctx": {}, "data": "NoData"}
 
 
 # --------------------------------------------------------------------------- workload
 def features_of(nodes) -> set:
-    from vlib import gen
+    from vlib import gen, refmodel as rm
 
     f = set()
+    # a parameter resolved from its signature default on a class semantiva generates afresh per run
+    for n in nodes:
+        p = n.get("processor")
+        if isinstance(p, str) and "derive" not in n:
+            base = p.split(":")[1] if p.startswith("slice:") else p
+            comp = rm.COMPONENTS.get(base)
+            if comp is not None and (p.startswith("slice:") or comp.kind in ("source", "psource", "sink")):
+                if any(d is not rm.REQ and name not in (n.get("parameters") or {}) for name, d in comp.params):
+                    f.add("default_on_generated_class")
     for n in nodes:
         p = n.get("processor")
         if not isinstance(p, str):
@@ -363,7 +380,7 @@ def run(run):
 
     tier = run.tier
     seed = run.seed * 1000 + run.shard[0]
-    cases = choose_pipelines(run, seed, N_PIPELINES[tier])
+    cases = choose_pipelines(run, seed, N_PIPELINES[tier]) + [QUALIFIED_CASE]
     scratch = tempfile.mkdtemp(prefix="verif-c18-")
     jobs = []
     covered = set()
